@@ -256,30 +256,7 @@ def run(ctx):
         ctx.ob("R4", "operands(%s)" % lit, order_ok.get(lit) is True, ctx.where(PS),
                "the infix form passes [text before the symbol, text after it] as (first, second) operand" if order_ok.get(lit) else
                "the operands of the infix form are not passed in (left, right) order")
-    GL = prog.one("parse_goals::get_left_and_right")
-    if GL is None:
-        ctx.missing("R4", "get_left_and_right")
-    else:
-        ctx.fn(GL)
-        okg, n = True, 0
-        for p in Walker(GL, max_visits=2).paths():
-            if p.end != "return" or p.ret[0] != "agg" or p.ret[2] != "Ok":
-                continue
-            n += 1
-            tup = strip(dict(p.ret[3]).get("0"))
-            if tup[0] != "tuple" or len(tup[1]) != 2:
-                okg = False
-                continue
-            def side(t):
-                # which slice of the characters a term was parsed from: "before" (..index) or "after" (index+size..)
-                if mentions(t, lambda x: x[0] == "agg" and x[1].endswith("RangeFrom")):
-                    return "after"
-                if mentions(t, lambda x: x[0] == "agg" and x[1].endswith("ops::Range") and dict(x[3]).get("start", ("", "", "", None))[3] == 0):
-                    return "before"
-                return "?"
-            if (side(tup[1][0]), side(tup[1][1])) != ("before", "after"):
-                okg = False
-        ctx.ob("R4", "left-right-split", okg and n > 0, ctx.where(GL), "get_left_and_right returns (term parsed from the text before the symbol, term parsed from the text after it)")
+    infixscan.left_right_split(ctx, "R4")
     # make_goal's built-in names = dispatch table names
     names = set()
     for p in Walker(MG, max_visits=2, max_paths=300000).paths():
